@@ -27,6 +27,7 @@ one transport per request, and the position-preserving "required field missing" 
 -/
 import FV.Model.Processor
 import FV.Proofs.Processor
+import FV.Generated.Locks
 
 namespace FV.C14
 open FV FV.Proc
@@ -420,5 +421,14 @@ example : (run (Sys.init 2 exReply) [.lock 0, .writeChunk 0, .writeChunk 1]).isN
   simp [run, step, Sys.init, upd, exReply]
 example : (run (Sys.init 2 exReply) [.lock 0, .writeChunk 0, .lock 1]).isNone = true := by
   simp [run, step, Sys.init, upd, exReply]
+
+/-- **Lock discipline behind the model's atomic steps** (processor write mutex, NATS server send mutex), decided by the kernel on facts
+REGENERATED from lib/go's source on every check (harness/locks → FV/Generated/Locks.lean): no function
+calls, while it holds one of these mutexes, anything that (transitively) acquires the same mutex, no
+lexical re-lock, and every path out of a function releases what the function locked. This is what makes a
+critical section ONE step of the model and rules out the self-deadlocks (a second RLock behind a queued
+writer, SendError under SendReply's lock) and leaked locks that would wedge every later request. -/
+theorem c14_lock_discipline :
+    FV.Locks.ok [5, 6] FV.Generated.Locks.mutexTags FV.Generated.Locks.facts = true := by decide +kernel
 
 end FV.C14
